@@ -390,7 +390,8 @@ def run_episode(env, cfg):
         if c["i"] > 0 and cfg.get("stagger"):
             await asyncio.sleep(c["start"])
         c["t_start"] = loop.time()
-        qos = QosParams(max_retries=cfg.get("max_retries", 3), timeout=c["T"], wait_for_reply=cfg.get("wait_for_reply", None))
+        T_arg = float(c["T"]) if getattr(env, "float_timeouts", False) else c["T"]
+        qos = QosParams(max_retries=cfg.get("max_retries", 3), timeout=T_arg, wait_for_reply=cfg.get("wait_for_reply", None))
         try:
             pkt = await proto.send_cmd(c["cmd"], priority=c["prio"], qos=qos)
             c["outcome"] = ("pkt", ether.owner.get(id(pkt), ("?", "unknown")))
@@ -409,7 +410,9 @@ def run_episode(env, cfg):
     # optional faults at symbolic times
     if cfg.get("disconnect"):
         td = env.real("t_disconnect", 0, cfg.get("disconnect"))
-        loop.call_later(td, proto.connection_lost, None)
+        # what the transport reports: a clean close, or the driver's own exception (a USB stick pulled out: OSError)
+        why = env.choice("disconnect_err", ["none", "OSError"])
+        loop.call_later(td, proto.connection_lost, None if why == "none" else OSError("injected: device reports readiness to read but returned no data"))
         if cfg.get("reconnect"):
             tr = env.real("t_reconnect_after", 0, 5)
 
@@ -698,6 +701,15 @@ def replay_episode(prop, cfg, cex, label):
     obs = run_episode(env, cfg)
     ORACLES[prop](env, cfg, obs)
     failed = [l for l, _ in env.failed]
+    if label not in failed and any(isinstance(v, dict) and k.startswith("T") for k, v in cex.items()):
+        # the caller's timeout was handed over as the exact rational the solver chose; code that uses the timeout in
+        # datetime arithmetic only takes a float: replay once more the way a user would pass it
+        env2 = ReplayEnv(cex)
+        env2.float_timeouts = True
+        obs2 = run_episode(env2, cfg)
+        ORACLES[prop](env2, cfg, obs2)
+        if label in [l for l, _ in env2.failed]:
+            env, obs, failed = env2, obs2, [l for l, _ in env2.failed]
     desc = {
         "writes": [(float(t), ci) for t, ci, _ in obs["writes"]],
         "callers": [(c["i"], c["outcome"], float(c["t_done"]) if c["t_done"] is not None else None) for c in obs["callers"]],
